@@ -86,6 +86,7 @@ void harness (void)
   __CPROVER_assert (verif_pc_completed (g_p), "post on return the call is completed");
   __CPROVER_assert (IMP (was_completed, G.completions == 0 && G.notified == 0 && g_flushes == 0), "post an already completed call returns immediately");
   __CPROVER_assert (IMP (!was_completed, G.completions == 1 && !verif_attached (g_p) && verif_pc_reply (g_p) != NULL), "post an outstanding call is completed exactly once, detached, with a reply or a local error");
+  __CPROVER_assert (IMP (!was_completed && verif_pc_reply (g_p) != g_reply, !g_reply_queued), "post a reply that arrived first is what the call completes with: never a local error while the matching reply sits in the incoming queue");
   __CPROVER_assert (verif_pc_refcount (g_p) == 1, "post the function's own reference is released, the application's is kept");
   if (was_completed) REACH ("already-completed");
   if (!was_completed && verif_pc_reply (g_p) == g_reply) REACH ("got-reply");
